@@ -1,7 +1,7 @@
+import Mdsort.Proofs.Opts
 import Mdsort.Proofs.Interp
 import Mdsort.Proofs.Captures
 import Mdsort.Proofs.MainTextMacros
-import Mdsort.Proofs.Opts
 
 /-!
 # C12 - interpolation is exact and single-pass: message content is data, never template
